@@ -402,9 +402,25 @@ class PendingFor(_PendingLoop[For]):
         self.flow_ctrl_interrupt_used = False
         self.interrupt_node_bodies = []
 
+        # The target of the comprehension is a tmp var.
+        # The target of the for loop is assigned from the tmp var
+        # at the beginning of the body, like an ordinary assignment.
+        # So that the loop variable is still available after the loop,
+        # and it can be global/nonlocal/attribute/subscript etc.
+        self.item_expr = Name(id=ol_name(OL_FOR_ITEM))
+
         self.nsp.loop_stack.append(self)
 
+    def _get_target_assign(self) -> list[expr]:
+        return PendingAssign(
+            Assign(targets=[self.node.target], value=self.item_expr),
+            self.nsp,
+            self.nsp_global,
+        ).assign_auto(self.node.target, Name(id=self.item_expr.id, ctx=Load()))
+
     def get_result(self) -> list[expr]:
+        self.converted_body[0:0] = self._get_target_assign()
+
         # if no break/continue/return used
         # use the simplest list comprehension
         if self.interrupt_cnt == 0 and len(self.node.orelse) == 0:
@@ -413,7 +429,7 @@ class PendingFor(_PendingLoop[For]):
                     elt=self.nsp_global.expr_wraper(self.converted_body),
                     generators=[
                         comprehension(
-                            target=self.node.target,
+                            target=Name(id=self.item_expr.id, ctx=Store()),
                             iter=expr_transf(self.nsp, self.node.iter),
                             ifs=[],
                             is_async=0,
@@ -484,7 +500,7 @@ class PendingFor(_PendingLoop[For]):
             elt=self.nsp_global.expr_wraper(self.converted_body),
             generators=[
                 comprehension(
-                    target=self.node.target,
+                    target=Name(id=self.item_expr.id, ctx=Store()),
                     iter=for_loop_iter,
                     ifs=[],
                     is_async=0,
